@@ -223,6 +223,14 @@ def hMaWhere : Handler := handler fun args =>
     let c ← (← c.toList?).mapM SExp.toBool?
     pure (ofMs (Dask.Masked.maskedWhere c (← toMs? xs)))
   | _ => none
+/-- `(mainside outside? v1 v2 (elems…))` -/
+def hMaInside : Handler := handler fun args =>
+  match args with
+  | [o, v1, v2, xs] => do
+    let o ← o.toBool?
+    let f := if o then Dask.Masked.maskedOutside else Dask.Masked.maskedInside
+    pure (ofMs (f (← v1.toInt?) (← v2.toInt?) (← toMs? xs)))
+  | _ => none
 
 /-! ### C28 -/
 open Dask.RandomKeys in
@@ -379,7 +387,7 @@ def table : List (String × Handler) := [
   ("blsched", ReduceDriver.hBlSched), ("schedok", ReduceDriver.hSchedOk),
   ("mergepct", ReduceDriver.hMergePct),
   ("mareduce", ReduceDriver.hMaReduce), ("mazip", ReduceDriver.hMaZip), ("mascan", ReduceDriver.hMaScan),
-  ("mafilled", ReduceDriver.hMaFilled), ("mawhere", ReduceDriver.hMaWhere),
+  ("mafilled", ReduceDriver.hMaFilled), ("mawhere", ReduceDriver.hMaWhere), ("mainside", ReduceDriver.hMaInside),
   ("rngcalls", ReduceDriver.hRngCalls), ("rscalls", ReduceDriver.hRsCalls), ("choiceguard", ReduceDriver.hChoiceGuard),
   ("rnghist", ReduceDriver.hRngHist), ("rshist", ReduceDriver.hRsHist),
   ("contract", ReduceDriver.hContract), ("stackgroups", ReduceDriver.hStackGroups), ("cumsumblocks", ReduceDriver.hCumsumBlocks),
